@@ -423,7 +423,7 @@ func init() {
 		panic(engineAbort{"time.now"})
 	}
 	e["time.Since"] = func(fr *frame, args []value) value { return int64(0) }
-	e["time.Sleep"] = noop
+	// time.Sleep: see registerConcurrency (no-op outside concurrency mode)
 
 	// ---- os / runtime ------------------------------------------------------------
 	e["os.Getenv"] = func(fr *frame, args []value) value { return "" }
